@@ -1,7 +1,15 @@
 -- Root of the library: everything `./check --setup` pre-builds.
 import Xrfmv.Props.C02
 import Xrfmv.Props.C03
+import Xrfmv.Props.C04
+import Xrfmv.Props.C05
 import Xrfmv.Props.C06
+import Xrfmv.Props.C07
+import Xrfmv.Props.C08
 import Xrfmv.Props.C09
+import Xrfmv.Props.C12
+import Xrfmv.Props.C13
+import Xrfmv.Props.C14
 import Xrfmv.Props.C15
 import Xrfmv.Props.C16
+import Xrfmv.Props.C19
